@@ -664,6 +664,20 @@ def rule_hyper_count(ctx):
     rets = [n for n in ast.walk(f.node) if isinstance(n, ast.Return) and n.value is not None]
     ok_count = False
     ok_out = False
+    # every exit decides with the global holder count: a return (fast path) whose expression never looks at self.ind_map classifies a hyper
+    # index shared with a third tensor as a bond of the pair
+    for rt in rets:
+        looks = any(isinstance(x, ast.Attribute) and x.attr == "ind_map" for x in ast.walk(rt))
+        if not looks:
+            # through locals defined from ind_map
+            names = {y.id for y in ast.walk(rt.value) if isinstance(y, ast.Name)}
+            for a in ast.walk(f.node):
+                if isinstance(a, ast.Assign) and any(isinstance(t, ast.Name) and t.id in names for t in a.targets) and any(isinstance(x, ast.Attribute) and x.attr == "ind_map" for x in ast.walk(a.value)):
+                    looks = True
+        if not looks:
+            r.bad(Finding("hyper-count", "TensorNetwork.compute_contracted_inds",
+                          f"the exit `{src_of(rt)[:60]}...` (line {rt.lineno}) decides which labels to keep without the global holder count self.ind_map: a label held by a third "
+                          "tensor outside the group is summed early", where=f"{f.module.relpath}:{rt.lineno}", operand="exit-without-count"))
     for rt in rets:
         for c in ast.walk(rt):
             if isinstance(c, ast.Compare) and any(isinstance(x, ast.Call) and dotted(x.func) == "len" and "ind_map[" in src_of(x) for x in ast.walk(c)) \
@@ -992,4 +1006,35 @@ def rule_conj_mangle_universe(ctx):
             else:
                 r.skip(construct, f"universe of `{src_of(e)[:60]}` not recognised")
     r.floor(n, 1, "explicit-output definitions of the mangled set in TensorNetwork.conj")
+    return r
+
+
+def rule_linop_private_tensors(ctx):
+    r = RuleResult(
+        "linop-private-tensors",
+        "TNLinearOperator.__init__ folds a stored exponent into tensors (distribute_exponent rewrites tensor data in place): the network it "
+        "does that to is a private copy *including its tensors* — `tns.copy()`; a virtual copy (`copy(virtual=True)`) or the caller's own "
+        "network shares the Tensor objects, so the caller's network would be rescaled while still carrying its exponent",
+    )
+    f = ctx.prog.func("quimb.tensor.tensor_core", "TNLinearOperator.__init__")
+    if f is None:
+        raise AnalysisError("linop-private-tensors: TNLinearOperator.__init__ not found")
+    MUT = {"distribute_exponent", "equalize_norms_", "multiply_", "multiply_each_", "strip_exponent"}
+    calls = [c for c in ast.walk(f.node) if isinstance(c, ast.Call) and isinstance(c.func, ast.Attribute) and c.func.attr in MUT and isinstance(c.func.value, ast.Name)]
+    if not calls:
+        r.ok("TNLinearOperator.__init__", sample={"in-place rescaling": "none"})
+        return r
+    for c in calls:
+        X = c.func.value.id
+        defs = [a for a in ast.walk(f.node) if isinstance(a, ast.Assign) and any(isinstance(t, ast.Name) and t.id == X for t in a.targets) and a.lineno < c.lineno]
+        where = f"{f.module.relpath}:{c.lineno}"
+        last = max(defs, key=lambda a: a.lineno) if defs else None
+        private = last is not None and isinstance(last.value, ast.Call) and isinstance(last.value.func, ast.Attribute) and last.value.func.attr == "copy" \
+            and not any(k.arg == "virtual" and const_value(k.value, False) is not False for k in last.value.keywords)
+        if private:
+            r.ok("TNLinearOperator.__init__", sample={"rescaled": X, "is": src_of(last.value)})
+        else:
+            r.bad(Finding("linop-private-tensors", "TNLinearOperator.__init__",
+                          f"`{src_of(c)}` rewrites tensor data of `{X}`, which is {('`' + src_of(last.value) + '`') if last is not None else 'the caller network itself'}: the Tensor objects are shared with "
+                          "the caller's network, which is rescaled by 10**exponent while keeping its exponent", where=where, operand="shared-tensors"))
     return r
